@@ -27,6 +27,10 @@ def layout_config(endian='big', address_bits=16, origin=None, page_size=None, zo
     cfg['instructions']['ld16'] = {'bytecode': {'value': 0x20, 'size': 8},
                                    'operands': {'count': 1, 'operand_sets': {'list': ['imm16']}}}
     cfg['instructions']['nib'] = {'bytecode': {'value': 0xA, 'size': 4}}
+    # zero operands stated explicitly; and a variant pair taking none / one operand (used by the C14 fault catalogue)
+    cfg['instructions']['hlt'] = {'bytecode': {'value': 0xFF, 'size': 8}, 'operands': {'count': 0}}
+    cfg['instructions']['ret'] = {'bytecode': {'value': 0xC0, 'size': 8}, 'operands': {'count': 0}, 'variants': [
+        {'bytecode': {'value': 0xC1, 'size': 8}, 'operands': {'count': 1, 'operand_sets': {'list': ['imm8']}}}]}
     cfg['operand_sets']['imm12'] = {'operand_values': {'n': {'type': 'numeric', 'argument': {'size': 12, 'byte_align': False}}}}
     cfg['instructions']['ld12'] = {'bytecode': {'value': 0xB, 'size': 4},
                                    'operands': {'count': 1, 'operand_sets': {'list': ['imm12']}}}
